@@ -304,7 +304,8 @@ def decode(raw: bytes) -> dict:
             if sz == 0:
                 break
             body = raw[off + p + 21 : off + p + sz]
-            entries[(idx, p)] = (typ & 0xFF, typ >> 8, pti, po, body[: do - 1].decode("utf-8"), body[do:])
+            key = body[: do - 1].decode("utf-8") if (typ & 0xFF) != T_FREE else ""
+            entries[(idx, p)] = (typ & 0xFF, typ >> 8, pti, po, key, body[do:])
             p += sz
     nodes = {k: {} for k, e in entries.items() if e[0] == T_NODE}
     root = {}
